@@ -25,7 +25,8 @@ VERIF = os.path.dirname(os.path.dirname(os.path.abspath(__file__)))
 REPO = os.path.abspath(os.environ.get("VERIF_REPO", "/repo"))
 COQ = os.path.join(VERIF, "coq")
 WORK = os.path.join(VERIF, ".work")
-EVID = os.path.join(VERIF, "evidence")
+# evidence of runs against a scratch copy of the repository (mutant rehearsal) must not overwrite the real evidence
+EVID = os.path.join(VERIF, "evidence") if REPO == "/repo" else os.path.join(WORK, "alt-evidence")
 REPLAYS = os.path.join(EVID, "replays")
 KNOWN = os.path.join(VERIF, "known_findings.json")
 
